@@ -395,6 +395,32 @@ class Interp:
                     work.append(tgt)
         return self
 
+    def run_from(self, start_id, env, stop_ids):
+        """propagate from `start_id` with the given state; nodes in `stop_ids` are not executed: the
+        state reaching them is recorded in in_state (used to evaluate one pass through a region, e.g.
+        one loop iteration as a state transformer)"""
+        g = self.g
+        stop_ids = set(stop_ids)
+        self.in_state = {start_id: dict(env)}
+        work = [start_id]
+        count = 0
+        while work:
+            nid = work.pop()
+            count += 1
+            if count > 200000:
+                break
+            if nid in stop_ids:
+                continue
+            n = g.nodes[nid]
+            outs = self.transfer(n, dict(self.in_state[nid]))
+            for tgt, st in outs:
+                old = self.in_state.get(tgt)
+                new = st if old is None else join(old, st)
+                if old is None or new != old:
+                    self.in_state[tgt] = new
+                    work.append(tgt)
+        return self
+
     def transfer(self, n, env):
         k = n.kind
         if k == 'cond':
